@@ -87,6 +87,27 @@ pub fn decode_only() -> Vec<M> {
         M::Node(Box::new(t("s")), vec![M::Node(Box::new(M::Node(Box::new(el(&a("p", "o"))), vec![a("q", "r")])), vec![a("u", "v")]), a("k", "w")]),
     ]
 }
+/// nodes whose subject is a node (reached through the API by compress / add / uncompress_subject, or by decoding): several inner and outer
+/// assertion sets, an assertion shared between the two levels, three levels, and the shape as a wrapped interior and as an object
+pub fn nsn() -> Vec<M> {
+    let t = |s: &str| M::Leaf(V::Text(s.into()));
+    let a = |p: &str, o: &str| M::Assertion(Box::new(t(p)), Box::new(t(o)));
+    let n = |s: M, v: Vec<M>| M::Node(Box::new(s), v);
+    let inner1 = n(t("Alice"), vec![a("knows", "Bob")]);
+    let inner2 = n(t("Alice"), vec![a("knows", "Bob"), M::Assertion(Box::new(M::Known(4)), Box::new(t("n")))]);
+    vec![
+        n(inner1.clone(), vec![a("note", "first")]),
+        n(inner1.clone(), vec![a("note", "first"), a("seen", "twice")]),
+        n(inner2.clone(), vec![a("note", "first")]),
+        n(inner1.clone(), vec![a("knows", "Bob")]),                       // the same assertion on both levels
+        n(inner2.clone(), vec![a("knows", "Bob"), a("note", "first")]),
+        n(n(M::Wrapped(Box::new(t("w"))), vec![a("p", "o")]), vec![a("q", "r")]),
+        n(n(M::Known(1), vec![a("p", "o")]), vec![M::Assertion(Box::new(M::Known(4)), Box::new(t("n")))]),
+        n(n(inner1.clone(), vec![a("note", "first")]), vec![a("outer", "most")]),
+        M::Wrapped(Box::new(n(inner1.clone(), vec![a("note", "first")]))),
+        n(t("holder"), vec![M::Assertion(Box::new(t("carries")), Box::new(n(inner1.clone(), vec![a("note", "first")])))]),
+    ]
+}
 pub fn absent_digest() -> D { [0xEE; 32] }
 /// L: leaf values for encoding properties, one per CBOR head-width boundary and per CBORCase arm
 pub fn leaf_alphabet() -> Vec<V> {
